@@ -79,17 +79,18 @@ checks["C03"] = dict(
     runs=dict(
         quick=[H("HarnessCrash", crash(2, 1, seg=64, armopen=1, opset=1), shards=14, depth=8),
                H("HarnessCrash", crash(1, 1, pre=1, seg=128, armopen=1, opset=4), shards=6, depth=8),
-               H("HarnessCrash", crash(1, 2, opset=1, crashkind=1, seg=64), shards=8, depth=8)],
+               H("HarnessCrash", crash(1, 2, opset=1, crashkind=1, seg=64), shards=8, depth=8),
+               H("HarnessMetaInit", {"F": 1}, pkg="harness/hfs", trace=True, crossval=2)],
         thorough=[H("HarnessCrash", crash(2, 1, seg=64, armopen=1), shards=42, depth=8, timeout="40m"),
                   H("HarnessCrash", crash(2, 2, opset=1, crashkind=1, seg=64), shards=42, depth=8, timeout="60m"),
                   H("HarnessCrash", crash(2, 1, seg=100, armopen=1), shards=42, depth=8, timeout="40m"),
                   H("HarnessCrash", crash(1, 2, armopen=1, opset=3, seg=64), shards=56, depth=8, timeout="60m"),
                   H("HarnessCrash", crash(1, 2, opset=1, crashkind=1, armopen=1), shards=42, depth=8, timeout="40m")]),
-    required_reach=["crash-verified"],
-    bounds=dict(quick="every crash point of a first-ever Open and of K=2 appends with one entry per segment (every append seals and rotates: all points between the sealing append and the rotation's metadata commit, rotation pending or run); a tail truncation (ForceSeal) with crash points inside Open; a process crash inside a sealing append followed by a restart and a power loss (first batch of a segment that also seals it, torn); after each recovery: append at Last+1, stable Set, head truncation, no-op truncation, close and reopen must succeed and be reflected",
+    required_reach=["crash-verified", "stale-zero-tmp", "stale-short-tmp", "second-load-ok"],
+    bounds=dict(quick="the production metadata store on a directory holding what an interrupted first Open can leave (no temporary database, one of zeros, a short prefix of one), one injected failure, then a second Load; every crash point of a first-ever Open and of K=2 appends with one entry per segment (every append seals and rotates: all points between the sealing append and the rotation's metadata commit, rotation pending or run); a tail truncation (ForceSeal) with crash points inside Open; a process crash inside a sealing append followed by a restart and a power loss (first batch of a segment that also seals it, torn); after each recovery: append at Last+1, stable Set, head truncation, no-op truncation, close and reopen must succeed and be reflected",
                 thorough='adds DeleteRange and batches of two, 2 entries per segment, a crash inside recovery (two epochs), process crash + power loss with crash points inside Open'),
     assumptions=CRASH_ASSUME,
-    outside=["creation of the real bbolt file (safeInitBoltDB) - covered at call level by C07", "more than 2 crash epochs"],
+    outside=["bbolt's own recovery of a torn database file (the model refuses a non-empty file no bbolt completed, as bbolt does for zeros / short files; other torn shapes are bbolt's business)", "more than 2 crash epochs"],
     level_text=CRASH_TEXT + "; the usability probe after every recovery is the C03 assertion group",
     level_note="same trusted base as C01")
 
@@ -114,15 +115,17 @@ checks["C13"] = dict(
     runs=dict(
         quick=[H("HarnessCrash", crash(1, 1, pre=3, seg=64, opset=4), shards=14, depth=8),
                H("HarnessCrash", crash(2, 1, seg=64, script=13), shards=14, depth=8),
-               H("HarnessSeq", {"K": 2, "bmax": 100, "seg": 64, "c13": 1}, shards=4, depth=4)],
+               H("HarnessSeq", {"K": 2, "bmax": 100, "seg": 64, "c13": 1}, shards=4, depth=4),
+               H("HarnessCloseRace", {"P": 2, "seg": 64}, pkg="harness/hsched", tags="verif", sched=True, shards=8, depth=4)],
         thorough=[H("HarnessCrash", crash(2, 1, pre=3, seg=64, opset=5), shards=42, depth=8, timeout="40m"),
+                  H("HarnessCloseRace", {"P": 3, "seg": 64}, pkg="harness/hsched", tags="verif", sched=True, shards=14, depth=4),
                   H("HarnessCrash", crash(1, 2, seg=64, opset=5, armopen=1), shards=56, depth=8, timeout="60m"),
                   H("HarnessSeq", {"K": 3, "bmax": 100, "seg": 64, "c13": 1}, shards=28, depth=5, timeout="30m")]),
-    required_reach=["crash-verified", "c13-checked"],
-    bounds=dict(quick="crash family: DeleteRange on a 3-segment log and 'append then DeleteRange' with one entry per segment, power loss at any modifying call, then Open: directory = exactly the live segments' files, IDs distinct and below NextSegmentID, Create never hit an existing name in any epoch; sequential family: K<=2 operations with one entry per segment, after every call the directory holds exactly the live files",
-                thorough='two operations after a 3-segment log; crash inside recovery; K<=3 sequential'),
+    required_reach=["crash-verified", "c13-checked", "deleted-then-closed"],
+    bounds=dict(quick="crash family: DeleteRange on a 3-segment log and 'append then DeleteRange' with one entry per segment, power loss at any modifying call, then Open: directory = exactly the live segments' files, IDs distinct and below NextSegmentID, Create never hit an existing name in any epoch; sequential family: K<=2 operations with one entry per segment, after every call the directory holds exactly the live files; a DeleteRange that drops a whole segment racing Close (<=2 preemptions at schedule points): once both returned, the file is gone and no handle is open",
+                thorough='two operations after a 3-segment log; crash inside recovery; K<=3 sequential; the Close race with 3 preemptions'),
     assumptions=CRASH_ASSUME,
-    outside=["concurrent readers pinning old state while files are deleted (only sequential reads)"],
+    outside=["a reader pinning an old state across DeleteRange AND Close (the Close race harness has one racing call)"],
     level_text=CRASH_TEXT + "; directory listing vs live segments and Create-collision accounting are the C13 assertion group",
     level_note="same trusted base as C01")
 
@@ -150,10 +153,12 @@ checks["C08"] = dict(
         quick=[H("HarnessStable"),
                H("HarnessStableBolt", {}, pkg="harness/hfs"),
                H("HarnessMetaRecord", {}, pkg="harness/hfs"),
+               H("HarnessMetaInit", {"F": 1}, pkg="harness/hfs", trace=True, crossval=2),
                H("HarnessCrash", crash(2, 1, opset=9), shards=16, depth=8)],
         thorough=[H("HarnessStable"),
                   H("HarnessStableBolt", {}, pkg="harness/hfs"),
                   H("HarnessMetaRecord", {}, pkg="harness/hfs"),
+                  H("HarnessMetaInit", {"F": 1}, pkg="harness/hfs", trace=True, crossval=2),
                   H("HarnessCrash", crash(3, 1, opset=9), shards=40, depth=8, timeout="30m"),
                   H("HarnessCrash", crash(2, 1, opset=13, seg=64), shards=40, depth=8, timeout="30m")]),
     required_reach=["stable-checked", "stable-bolt-checked", "meta-record-checked", "stable-set", "crash-verified"],
@@ -167,6 +172,7 @@ checks["C08"] = dict(
 checks["C10"] = dict(
     runs=dict(
         quick=[H("HarnessFault", {"K": 2, "F": 1}, shards=14, depth=7),
+               H("HarnessFault", {"K": 2, "F": 1, "seg": 64}, shards=14, depth=7),
                H("HarnessFault", {"K": 2, "F": 1, "pre": 2, "seg": 256}, shards=14, depth=7)],
         thorough=[H("HarnessFault", {"K": 2, "F": 1}, shards=28, depth=7),
                   H("HarnessFault", {"K": 2, "F": 1, "seg": 64}, shards=28, depth=7, timeout="30m"),
@@ -201,7 +207,9 @@ checks["C12"] = dict(
 checks["C14"] = dict(
     runs=dict(
         quick=[H("HarnessClose", {}, shards=14, depth=4),
-               H("HarnessCloseRace", {"P": 2}, pkg="harness/hsched", tags="verif", sched=True, shards=4, depth=3)],
+               H("HarnessCloseRace", {"P": 2}, pkg="harness/hsched", tags="verif", sched=True, shards=4, depth=3),
+               H("HarnessCloseRace", {"P": 2, "seg": 64}, pkg="harness/hsched", tags="verif", sched=True, shards=8, depth=4),
+               H("HarnessCloseRace", {"P": 2, "atomics": 1}, pkg="harness/hsched", tags="verif", sched=True, shards=8, depth=4)],
         thorough=[H("HarnessClose", {}, shards=14, depth=4), H("HarnessClose", {"seg": 64}, shards=28, depth=5, timeout="30m"),
                   H("HarnessCloseRace", {"P": 3}, pkg="harness/hsched", tags="verif", sched=True, shards=14, depth=4),
                   H("HarnessCloseRace", {"P": 3, "seg": 64}, pkg="harness/hsched", tags="verif", sched=True, shards=14, depth=4)]),
@@ -233,10 +241,10 @@ VERIF_ASSUME = ["ideal FNV-1a: running sums are collision-free and non-zero for 
 
 checks["C16"] = dict(
     runs=dict(
-        quick=[H("HarnessNoFalseAlarm", {}, pkg="harness/hverif", shards=8, depth=4)],
-        thorough=[H("HarnessNoFalseAlarm", {}, pkg="harness/hverif", shards=8, depth=4)]),
-    required_reach=["no-false-alarm-checked", "plain", "follower-restart", "head-truncated", "leader-change", "two-checkpoints", "leader-restart", "truncation-at-range-start"],
-    bounds="2..3 entries (symbolic Term, 1..2 symbolic Data bytes) then a checkpoint; every split of the replication into two batches; scenarios: plain, follower restart before the checkpoint, follower head truncation (expects ErrRangeMismatch), leadership change with a conflicting suffix of every length (tail truncation + new leader's entries), two consecutive checkpoints",
+        quick=[H("HarnessNoFalseAlarm", {}, pkg="harness/hverif", shards=8, depth=4), H("HarnessRetry", {}, pkg="harness/hverif")],
+        thorough=[H("HarnessNoFalseAlarm", {}, pkg="harness/hverif", shards=8, depth=4), H("HarnessRetry", {}, pkg="harness/hverif")]),
+    required_reach=["retry-checked", "no-false-alarm-checked", "plain", "follower-restart", "head-truncated", "leader-change", "two-checkpoints", "leader-restart", "truncation-at-range-start"],
+    bounds="2..3 entries (symbolic Term, 1..2 symbolic Data bytes) then a checkpoint; every split of the replication into two batches; scenarios: plain, follower restart before the checkpoint, follower head truncation (expects ErrRangeMismatch), leadership change with a conflicting suffix of every length (tail truncation + new leader's entries), two consecutive checkpoints, a leader whose middleware restarted mid-interval, a tail truncation ending exactly where the follower's running sum starts; a batch whose write to the underlying store fails once and is retried unaltered",
     assumptions=VERIF_ASSUME,
     outside=["more than three nodes / more than two checkpoints", "ranges modified while their verification runs"],
     level_text="Bounded symbolic execution of the real verifier.LogStore (StoreLogs, updateVerifyState, runVerifier, verify, checksumLog) on two or three nodes; entry contents and batch splits symbolic; z3 decides that no report carries a checksum mismatch when the stored range equals the leader's",
@@ -270,7 +278,7 @@ checks["C19"] = dict(
     runs=dict(
         quick=[H("HarnessCopyLogs", {"maxn": 2}, pkg="harness/hmig", shards=8, depth=4), H("HarnessCopyStable", {}, pkg="harness/hmig")],
         thorough=[H("HarnessCopyLogs", {"maxn": 3}, pkg="harness/hmig", shards=28, depth=5, timeout="30m"), H("HarnessCopyStable", {}, pkg="harness/hmig")]),
-    required_reach=["copylogs-checked", "copied", "cancelled", "progress-closed", "copystable-checked"],
+    required_reach=["copylogs-checked", "copied", "cancelled", "progress-closed", "copystable-checked", "split-keyspace"],
     bounds=dict(quick="source of 0..2 entries, first index 64-bit symbolic, Term 64-bit, Type 8-bit, Data 0..2 and Extensions 0..1 symbolic bytes, batchBytes a symbolic int over its whole range (negative, 0, around entry sizes, huge), cancellation at any call of ctx.Err, progress channel nil / buffered / unread; CopyStable: the three standard keys plus one extra key of each kind with symbolic values",
                 thorough="0..3 entries"),
     assumptions=["source and destination are harness/memstore stores (the WAL as source or destination is exercised by the C05 harness family through the same LogStore interface)", "time.After yields an already-fired timer; context is a harness type whose Err turns Canceled at a symbolic call"],
@@ -283,15 +291,20 @@ checks["C09"] = dict(
         quick=[H("HarnessFormatWrite", {"maxplen": 9, "limit": 120}, pkg="harness/hseg", shards=8, depth=4),
                H("HarnessFormatRead", {"maxplen": 3}, pkg="harness/hseg", shards=4, depth=4),
                H("HarnessGolden", {}, pkg="harness/hseg"),
-               H("HarnessMetaRecord", {}, pkg="harness/hfs")],
+               H("HarnessMetaRecord", {}, pkg="harness/hfs"),
+               H("HarnessFault", {"K": 2, "F": 1, "seg": 64}, shards=14, depth=7),
+               H("HarnessFault", {"K": 2, "F": 1, "pre": 2, "seg": 256}, shards=14, depth=7)],
         thorough=[H("HarnessMetaRecord", {}, pkg="harness/hfs"),
+                  H("HarnessFault", {"K": 2, "F": 1, "seg": 64}, shards=14, depth=7),
+                  H("HarnessFault", {"K": 2, "F": 1, "pre": 2, "seg": 256}, shards=14, depth=7),
+                  H("HarnessFault", {"K": 2, "F": 2, "seg": 64}, shards=56, depth=7, timeout="40m"),
                   H("HarnessFormatWrite", {"maxplen": 9, "limit": 136, "maxbatches": 3}, pkg="harness/hseg", shards=28, depth=5, timeout="30m"),
                   H("HarnessFormatWrite", {"maxplen": 9, "limit": 4096, "maxbatches": 2}, pkg="harness/hseg", shards=8, depth=4),
                   H("HarnessFormatRead", {"maxplen": 9}, pkg="harness/hseg", shards=28, depth=5, timeout="30m"),
                   H("HarnessGolden", {}, pkg="harness/hseg")]),
-    required_reach=["format-write-checked", "force-sealed", "sealed-by-size", "format-read-checked", "read-sealed", "read-tail", "golden-checked", "meta-record-checked"],
-    bounds=dict(quick="1..2 batches of 1..2 entries, payload lengths 0..9 (every padding residue) with symbolic bytes, BaseIndex/SegmentID/Codec 64-bit symbolic, sealing by size (120-byte limit) or ForceSeal or not at all; reader side: reference images of 1..2 batches, payloads 0..3 bytes, sealed and unsealed; golden directory written by the pinned version",
-                thorough="up to 3 batches; reader payloads 0..9 bytes"),
+    required_reach=["format-write-checked", "force-sealed", "sealed-by-size", "format-read-checked", "read-sealed", "read-tail", "golden-checked", "meta-record-checked", "fault-checked"],
+    bounds=dict(quick="1..2 batches of 1..2 entries, payload lengths 0..9 (every padding residue) with symbolic bytes, BaseIndex/SegmentID/Codec 64-bit symbolic, sealing by size (120-byte limit) or ForceSeal or not at all; reader side: reference images of 1..2 batches, payloads 0..3 bytes, sealed and unsealed; golden directory written by the pinned version; after K<=2 operations with one injected I/O failure (one entry per segment, and a tail truncation inside a live tail) and a clean reopen, every segment the metadata lists as sealed has an index frame at its recorded IndexStart",
+                thorough="up to 3 batches; reader payloads 0..9 bytes; two injected failures"),
     assumptions=["ideal CRC (the commit CRC is compared as the checksum of the same byte sequence, collision-free); castagnoliTable is created by crc32.MakeTable(crc32.Castagnoli) (checked concretely by the stub)",
                  "README ambiguity: the first commit's CRC covers the file header (README says 'all bytes appended since the last fsync' and also 'just after the file header'; the pinned behaviour and golden files include the header)"],
     outside=["BoltDB file layout of wal-meta.db (bbolt's pages are not encoded: the metadata record is checked as key 'm' in bucket 'wal-meta' of the bbolt model, JSON written/parsed by the engine's encoding/json stub following encoding/json's rules)", "symbolic file names beyond the fixed-width pattern comparison"],
